@@ -24,16 +24,18 @@ type c15Req struct {
 	Op    string
 	Kind  string // ok | syntax | validation | unknown-op
 	Root  string // root field response key
+	Vars  map[string]interface{}
 }
 
 var c15Reqs = []c15Req{
-	{"events", `subscription { events { id name nn { s sNN } } }`, "", "ok", "events"},
-	{"events-abstract", `subscription S { events(n:1) { id nodes(n:2) { id ... on A { aOnly } } u { ... on B { bOnly } } } }`, "S", "ok", "events"},
-	{"ticks", `subscription { ticks { s sNN i } }`, "", "ok", "ticks"},
-	{"alias", `subscription { e: events { id } }`, "", "ok", "e"},
-	{"syntax", `subscription { events { id `, "", "syntax", ""},
-	{"validation", `subscription { events { nope } }`, "", "validation", ""},
-	{"unknown-op", `subscription A { events { id } }`, "B", "unknown-op", ""},
+	{"events", `subscription { events { id name nn { s sNN } } }`, "", "ok", "events", nil},
+	{"events-abstract", `subscription S { events(n:1) { id nodes(n:2) { id ... on A { aOnly } } u { ... on B { bOnly } } } }`, "S", "ok", "events", nil},
+	{"ticks", `subscription { ticks { s sNN i } }`, "", "ok", "ticks", nil},
+	{"alias", `subscription { e: events { id } }`, "", "ok", "e", nil},
+	{"vars", `subscription($k:Kind, $st:Stamp, $n:Int){ events(k:$k, st:$st, n:$n) { id kind nodes(n:$n) { id } } }`, "", "ok", "events", map[string]interface{}{"k": "BETA", "st": "s1", "n": 1}},
+	{"syntax", `subscription { events { id `, "", "syntax", "", nil},
+	{"validation", `subscription { events { nope } }`, "", "validation", "", nil},
+	{"unknown-op", `subscription A { events { id } }`, "B", "unknown-op", "", nil},
 }
 
 type C15Scn struct {
@@ -83,19 +85,27 @@ func (p c15) Gen(seed uint64, enum int, tier string) json.RawMessage {
 		return mustJSON(s)
 	}
 	r := NewRNG(seed)
-	s.Req = r.Intn(4)
+	s.Req = r.Intn(5)
 	if r.Chance(12) {
-		s.Req = 4 + r.Intn(3)
+		s.Req = 5 + r.Intn(3)
 	}
 	if r.Chance(12) {
 		s.SubMode = c15SubModes[r.Intn(len(c15SubModes))]
 	}
 	for n := r.Intn(6); n > 0; n-- {
-		s.Events = append(s.Events, []int{0, 0, 0, 1, 2, 3}[r.Intn(6)])
+		s.Events = append(s.Events, []int{0, 0, 0, 1, 2, 3, 4}[r.Intn(7)])
 	}
 	s.Consumer = []string{"prompt", "prompt", "slow", "stops"}[r.Intn(4)]
 	s.StopAfter = r.Intn(3)
 	s.End = []string{"close", "cancel", "cancel", "close+cancel"}[r.Intn(4)]
+	if !strings.Contains(s.End, "cancel") {
+		// a resolver that waits for the cancellation needs one
+		for i, e := range s.Events {
+			if e == 4 {
+				s.Events[i] = 0
+			}
+		}
+	}
 	for _, c := range c15AllPark {
 		if r.Chance(70) {
 			s.Park = append(s.Park, c)
@@ -131,7 +141,7 @@ func (c15) Shrink(scn json.RawMessage) []json.RawMessage {
 		t.BothReady = false
 		out = append(out, mustJSON(t))
 	}
-	if s.Req != 3 && s.Req < 4 {
+	if s.Req != 3 && s.Req < 5 {
 		t := s
 		t.Req = 3
 		out = append(out, mustJSON(t))
@@ -150,12 +160,17 @@ func c15Faults(rq c15Req, events []int) map[string]string {
 				f["R@ticks.s"+tag] = FErr
 			} else if m == 2 {
 				f["R@ticks.sNN"+tag] = FErr
+			} else if m == 4 {
+				f["R@ticks.s"+tag] = FBlockCancel
 			}
 		default:
 			if m == 1 {
 				f["R@"+rq.Root+".id"+tag] = FNil // id is ID!: nulls the (nullable) root field
 			} else if m == 2 {
 				f["R@"+rq.Root+tag] = FPanicErr
+			} else if m == 4 {
+				// a resolver that blocks until the request is cancelled
+				f["R@"+rq.Root+".id"+tag] = FBlockCancel
 			}
 		}
 	}
@@ -192,7 +207,11 @@ func (c15) Run(t TestingT, scn json.RawMessage, tape *Tape) *Outcome {
 		sw := NewWorld("A")
 		for i := range sc.Events {
 			rc := &ReqCtx{Task: "solo", W: sw, Faults: faults}
-			solo = append(solo, MarshalResult(graphql.Execute(graphql.ExecuteParams{Schema: sw.Schema, Root: c15Payload(sc.Events, i), AST: doc, OperationName: rq.Op, Context: WithReq(context.Background(), rc)})))
+			if sc.Events[i] == 4 {
+				solo = append(solo, "<blocks until cancelled>")
+				continue
+			}
+			solo = append(solo, MarshalResult(graphql.Execute(graphql.ExecuteParams{Schema: sw.Schema, Root: c15Payload(sc.Events, i), AST: doc, OperationName: rq.Op, Args: rq.Vars, Context: WithReq(context.Background(), rc)})))
 		}
 	}
 
@@ -297,7 +316,7 @@ func (c15) Run(t TestingT, scn json.RawMessage, tape *Tape) *Outcome {
 			rc := &ReqCtx{Task: "sub", W: w, Faults: faults, Gates: true}
 			rctx := WithReq(WithTask(ctx, "sub"), rc)
 			s.Gate("sub", "client:subscribe", "")
-			ch := graphql.Subscribe(graphql.Params{Schema: w.Schema, RequestString: rq.Query, OperationName: rq.Op, Context: rctx})
+			ch := graphql.Subscribe(graphql.Params{Schema: w.Schema, RequestString: rq.Query, OperationName: rq.Op, VariableValues: rq.Vars, Context: rctx})
 			n := 0
 			polls := 0
 			for {
@@ -431,6 +450,11 @@ func (c15) Run(t TestingT, scn json.RawMessage, tape *Tape) *Outcome {
 				break
 			}
 			if r == solo[k] {
+				continue
+			}
+			if sc.Events[k] == 4 {
+				// the event's resolver waits for the cancellation: its result is
+				// produced after it (context error or a field error), not judged
 				continue
 			}
 			if idxCancel >= 0 && gotIdx[k] > idxCancel && r == c15CtxErrJSON {
